@@ -9,6 +9,7 @@ import (
 	"sort"
 	"strings"
 	"sync"
+	"sync/atomic"
 	"time"
 
 	"verif/harness/internal/ctl"
@@ -100,6 +101,7 @@ type c04Trial struct {
 	killed  []pointHit // kill actions actually performed
 	notes   []string
 	stopDrv chan struct{}
+	straceKilledDaemon atomic.Bool
 }
 
 func (t *c04Trial) note(f string, a ...any) { t.notes = append(t.notes, fmt.Sprintf(f, a...)) }
@@ -283,10 +285,8 @@ func (t *c04Trial) execute() {
 	defer px.Close()
 	t.L = ctl.NewDaemon(ctl.Cfg{ID: "l", Dir: filepath.Join(t.dir, "l"), Peers: []string{px.Addr}, Work: genw})
 	defer func() { t.L.Kill(); ctl.KillStrays(t.dir) }()
+	defer func() { _ = os.WriteFile(filepath.Join(t.dir, "notes.txt"), []byte(strings.Join(t.notes, "\n")+"\n"), 0o644) }()
 
-	if sp.Strace != "" {
-		t.L.Bin, t.L.Extra = "", nil // replaced below
-	}
 	first := sp.Crashes[0]
 	var startErr error
 	if sp.Strace != "" {
@@ -295,7 +295,9 @@ func (t *c04Trial) execute() {
 		startErr = t.startL(&first)
 	}
 	if startErr != nil {
-		if !t.L.Alive() && first.Point != "end" && t.killedNow() {
+		if !t.L.Alive() && sp.Strace != "" {
+			t.note("daemon killed by the syscall injector during start-up")
+		} else if !t.L.Alive() && first.Point != "end" && t.killedNow() {
 			// killed during start-up already (possible for points hit while registering work types)
 			t.note("daemon killed during start-up")
 		} else {
@@ -309,6 +311,10 @@ func (t *c04Trial) execute() {
 			return
 		}
 		t.driver(rng)
+	}
+	if sp.Strace != "" && !t.L.Alive() {
+		// the wrapper ends with its last tracee: the daemon was killed by the injector
+		t.straceKilledDaemon.Store(true)
 	}
 	if t.L.Alive() {
 		// crash point not reached during the workload: kill at this (arbitrary) instant instead
@@ -353,10 +359,22 @@ func (t *c04Trial) execute() {
 	for _, u := range t.units {
 		if u.ID != "" && !u.Remote {
 			runnerAlive[u.ID] = len(runnerPids(filepath.Join(t.L.DataDir(), u.ID))) > 0
+			if sp.Strace != "" && !runnerAlive[u.ID] && u.SeenFinal == nil {
+				// the syscall injector also follows the runner processes: a unit whose runner is gone
+				// without a final state may have been its victim (identity and consistency only)
+				runnerKilled[u.ID] = true
+			}
 		}
 	}
 	// final clean restart on the same data directory
 	t.L.Bin = os.Getenv("VERIF_DAEMON")
+	t.L.Wrap = nil
+	if sp.Strace != "" {
+		run.Count("strace_trials", 1)
+		if t.straceKilledDaemon.Load() {
+			run.Count("strace_trials_in_which_the_daemon_was_killed", 1)
+		}
+	}
 	if err := t.startL(nil); err != nil {
 		fatal, top, _ := t.L.Fatal()
 		if fatal != "" {
@@ -541,7 +559,9 @@ func (t *c04Trial) execute() {
 		run.Distinct(fmt.Sprintf("%s:%s@%d|acked=%d", k.Role, k.Point, k.Hit, len(acked)))
 		run.SetAdd("crash_points_hit", k.Role+":"+k.Point)
 	}
-	if len(t.killed) == 0 {
+	if sp.Strace != "" {
+		run.Distinct(fmt.Sprintf("strace|%s@%d|daemon-killed=%v|acked=%d", sp.Strace, sp.StraceN, t.straceKilledDaemon.Load(), len(acked)))
+	} else if len(t.killed) == 0 {
 		run.Distinct(fmt.Sprintf("end|acked=%d|%v", len(acked), sp.Crashes))
 	}
 	run.Count("acknowledged_units_checked", int64(len(acked)))
@@ -596,7 +616,7 @@ func c04DryRun(run *ev.Run, dir string, seed int64) map[string]int {
 
 func runC04(tier string, args []string) {
 	run := ev.New("C04", tier, "fault_enumeration")
-	run.Rule("workload: 7 submissions (local short/empty/long/failing, remote short/long on a second daemon) with concurrent status polling; a dry run records every hook point hit per process role; then one trial per (role, point, k): the daemon or a runner process SIGKILLs itself at the k-th hit, the daemon is restarted on the same data directory (chains: the restart itself is crashed again), and after quiescence the acknowledged-unit ledger is compared with work list/status/results. quick: every point at its first hit + seeded later hits + restart-phase chains; distinct_nontrivial = distinct (role, point, hit, #acknowledged units) kills actually performed (from the point log)")
+	run.Rule("workload: 7 submissions (local short/empty/long/failing, remote short/long on a second daemon) with concurrent status polling; a dry run records every hook point hit per process role; then one trial per (role, point, k): the daemon or a runner process SIGKILLs itself at the k-th hit, the daemon is restarted on the same data directory (chains: the restart itself is crashed again), and after quiescence the acknowledged-unit ledger is compared with work list/status/results. quick: every point at its first hit + a middle hit + seeded later hits + restart-phase chains + syscall-level kills injected with strace (N-th ftruncate / write / openat of any thread of the daemon or a runner); distinct_nontrivial = distinct (role, point, hit, #acknowledged units) kills actually performed (from the point log)")
 	run.Assume("SIGKILL semantics: completed file-system operations persist (power loss is out of scope)")
 	run.Assume("completion is demanded only for units whose runner survived; a unit whose own runner was the killed process is judged on identity/consistency only")
 	work := workDir()
@@ -660,9 +680,27 @@ func runC04(tier string, args []string) {
 		}
 		add(c...)
 	}
+	// syscall-level kills (no hook needed): ftruncate = inside a status rewrite, mkdirat = unit creation,
+	// unlinkat = release, openat / write = anywhere between two file-system steps
+	type sk struct {
+		sc string
+		ns []int
+	}
+	straces := []sk{{"ftruncate", []int{3}}, {"write", []int{40}}, {"openat", []int{60}}}
+	if !run.Quick() {
+		straces = []sk{{"ftruncate", []int{1, 2, 3, 4, 5, 6, 8, 10}}, {"mkdirat", []int{1, 2, 3, 4}}, {"unlinkat", []int{1, 2}}, {"openat", []int{5, 20, 40, 60, 100, 200}}, {"write", []int{5, 20, 40, 80, 150, 300}}, {"renameat", []int{1}}, {"fsync", []int{1, 3}}}
+	}
+	for _, k := range straces {
+		for _, n := range k.ns {
+			specs = append(specs, &c04Spec{Idx: len(specs), Crashes: []c04Crash{{Role: "any", Point: "strace:" + k.sc, K: n}}, Seed: rng.Int63(), Strace: k.sc, StraceN: n})
+		}
+	}
 	if len(args) >= 2 && args[0] == "--trial" {
 		var idx int
 		fmt.Sscan(args[1], &idx)
+		if idx < 0 {
+			idx += len(specs)
+		}
 		specs = []*c04Spec{specs[idx]}
 	}
 	par := 16
@@ -677,7 +715,7 @@ func runC04(tier string, args []string) {
 			t := &c04Trial{sp: sp, dir: filepath.Join(work, fmt.Sprintf("t%d", sp.Idx)), run: run}
 			_ = os.MkdirAll(t.dir, 0o755)
 			t.execute()
-			if run.NViolations() == 0 {
+			if run.NViolations() == 0 && os.Getenv("VERIF_KEEP") == "" {
 				_ = os.RemoveAll(t.dir)
 			}
 		}(sp)
